@@ -20,7 +20,7 @@ def main(tier):
         quick = tier == "quick"
         rng = core.rng("c06")
         r = core.tlc_must_pass("Duration", "Duration.cfg", keep_prints=False)
-        rep.add_tlc("Duration (Recombine, InRange, Plain over all 31 unit subsets x boundary totals)", r)
+        rep.add_tlc("Duration (Recombine, InRange, Plain, SplitSame over all 31 unit subsets x boundary totals)", r)
         ch = chainmod.Chain()
         ddiff = b.tool("ddiff")
         subsets = []
@@ -52,8 +52,15 @@ def main(tier):
                                 continue
                             a, bb = pts[i], pts[j]
                             dd, ds = bb["ldn"] - a["ldn"], bb["sod"] - a["sod"]
-                            if abs(dd) > 24000 and not ({"d", "w"} & set(order)):
-                                continue            # seconds would leave 32 bits in TLC; far pairs are judged with d/w formats
+                            if abs(dd) > 24000 and order == ["S"]:
+                                # the number of seconds leaves TLC's 32-bit integers: hand it over as <<div 86400, mod 86400>>
+                                digits = line.strip().lstrip("-")
+                                val = int(digits) if digits.isdigit() else -1
+                                execs.append([{"e": "BigS", "cmd": "ddiff %s %s -f '%%S'" % (dc.text(a, True), dc.text(bb, True)), "fmt": "S(big)" + pad, "dd": dd, "ds": ds,
+                                               "hi": val // 86400 if val >= 0 else -1, "lo": val % 86400 if val >= 0 else -1,
+                                               "minus": line.count("-"), "lead": line.strip().startswith("-"), "out": line}])
+                                continue
+                            # (every other subset has a unit coarser than seconds: Split2 folds the days into it without forming the total in seconds)
                             p = dc.parse(line, order)
                             vals = {u: (p[0][u] if p else -1) for u in order}
                             execs.append([{"e": "Split", "cmd": "ddiff %s %s -f '%s'" % (dc.text(a, True), dc.text(bb, True), dc.fmt_of(order, pad)),
